@@ -35,7 +35,7 @@ def main():
     # ---------------- inputs
     cases = corpus_cases() + G.fixed_cases()
     n_fixed = len(cases)
-    cases += [G.case(rng) for _ in range((60000 if big else 3500) * boost)]
+    cases += [G.case(rng) for _ in range((30000 if big else 3500) * boost)]
     texts = []
     for c in cases:
         for e in c['entries']:
@@ -186,12 +186,13 @@ EXPLANATION = (
     'library result; parse_header_lines / parse_header_field / parse_header_stray (field grammar); special_domain_iff, domains_pin, email_domain, '
     'special_email_iff, dotless_email_iff, address_verdict, unparsable_url_reported; content_type_form; conflict_marker_spec; clean_header_silent '
     '(+ kernel-evaluated clean header in the three kinds); pot_exemptions, po_boilerplate_due, pot_comments_subset; mo_exemptions; hdr_nocrash, '
-    'hdr_nocrash_charset (with C20 check_total), unusual_names_total; source_pins, registry_case_distinct, tag_sites_pin, emitted_names_registered. '
+    'hdr_nocrash_charset (with C20 check_total), unusual_names_total; unusual_characters_spec, comment_search_spec, comment_word_pattern, '
+    'comment_copyright_pattern (declarative readings of find_unusual_characters and of the check_comments patterns); source_pins, registry_case_distinct, tag_sites_pin, emitted_names_registered. '
     'Reused, not re-modelled: check_dates (C18 Date.checkDates, NoCrash, template_placeholder_exempt), the charset fragment (C20 '
     'Charset.checkCharset, check_classification, check_total); Language / Plural-Forms / X-Poedit-* rules are C19 / C07. '
-    'OUTSTANDING (test-level only): a declarative reading of the six check_comments regexes and of find_unusual_characters (their rules are '
-    'stated with the model scanners), str.splitlines, and that CPython re decides what the scanners decide - all tied by the hdr-* and '
-    'check-comments streams; multiplicity of reports (sorted(set())) is compared by the correspondence (ordered lists) and the falsifier '
+    'OUTSTANDING (test-level only): str.splitlines, and that CPython re decides what the scanners decide - tied by the hdr-* and '
+    'check-comments streams (the rule set states the comment and unusual-character clauses with the model scanners, whose declarative '
+    'readings are separate theorems); multiplicity of reports (sorted(set())) is compared by the correspondence (ordered lists) and the falsifier '
     '(multisets), not proved. FINDING (fixed in /repo, re-found by this check on the pre-fix tree): Report-Msgid-Bugs-To: http://[foo crashed '
     'with ValueError (2f85d76).')
 
